@@ -124,6 +124,15 @@ impl Prop for C15 {
                         }
                     }
                     _ => {
+                        // The interpreter runs the worker to idle by itself once 40 caller ops have
+                        // passed without an idle point (so that the request channel cannot fill
+                        // up) — after the op, i.e. between the write and the observation below.
+                        // The boundary "in force at that write" must not move in between: take
+                        // that idle point before the op instead.
+                        if run.ops_since_idle >= 35 {
+                            run.run_to_idle();
+                            accounting(run, "after the worker ran to idle")?;
+                        }
                         let before = run.rl().verif_cache_resident().len() as u64;
                         let d = run.exec(op)?;
                         match d {
